@@ -114,3 +114,20 @@ Definition ctor_weights_matrix (labels : list nat) (w : list F) : nat * list (li
   let ix := ctor_index labels in let nb := length labels in
   (nb, map (fun s => map (fun i => weights_entry o ix w s i) (seq 0 (length labels))) (seq 0 nb)).
 End Ctor.
+
+(* ---- file semantics of Sensors::load without a geometry (sensors.cpp): ncol = number of numeric columns (the label,
+   if any, removed).  ncol = 4 throws (radii need a geometry); the weights are the last column exactly when ncol = 7,
+   LABELLED OR NOT, and 1 otherwise; an unlabelled file makes every integration point its own sensor. ---- *)
+Section FileSemantics.
+Context {F : Type} (o : Ops F).
+Definition file_weights (ncol : nat) (lastcol : list F) : list F :=
+  if Nat.eqb ncol 7 then lastcol else map (fun _ => f1 o) lastcol.
+Definition unlabelled_index (n : nat) : list nat := seq 0 n.
+Definition file_weights_matrix (labelled : bool) (ncol : nat) (labels : list nat) (lastcol : list F) : option (nat * list (list F)) :=
+  if Nat.eqb ncol 4 then None
+  else
+    let w := file_weights ncol lastcol in
+    if labelled then Some (weights_matrix o labels w)
+    else let n := length lastcol in
+         Some (n, map (fun s => map (fun i => weights_entry o (unlabelled_index n) w s i) (seq 0 n)) (seq 0 n)).
+End FileSemantics.
